@@ -59,6 +59,26 @@ CHECKS = {
    text="The complete table 256 control bytes x 19 destination addresses x 7 source addresses x role x self-address feature x {fresh, after link reset} x 2 passes (440k frames) is run through link::layer::Layer and compared with a transcription of the statement (accepted, reply function/addresses, delivery, FCB toggling); generated RESET/CONFIRMED_USER_DATA sequences check the frame-count-bit rule; generated session cases send valid and invalid fragments from the configured master, a foreign master and the three broadcast addresses in idle and confirm-wait states with the any-master/broadcast features on and off: nothing may be transmitted in reaction to a broadcast, nothing but link-layer traffic and no callback for a foreign master.",
    note="Frames with malformed flag combinations and secondary frames are only required not to be acted on when not addressed to the endpoint. A REQUEST_LINK_STATUS to a broadcast address is required NOT to be answered.",
    design="DESIGN.md §5 C07"),
+ "C15": dict(
+   technique="property-based testing of response streams against a statement-derived acceptance model (MasterRig)",
+   text="A real MasterTask (real link layer and transport) is driven over the in-memory physical layer; the harness plays the outstations. For an outstanding READ (1-3 planned fragments), command, link check or nothing, generated streams mix the expected fragment with one-deviation variants (sequence, source, FIR/FIN/CON/UNS, IIN2, unparsable objects, non-response functions), unsolicited responses (new/duplicate, with and without data/CON, unknown source) and silences. The model says which fragments are accepted; compared with the user future's outcome, the ReadHandler's begin/objects/end record and the CONFIRMs on the wire (exactly one per accepted CON fragment, right sequence number and UNS bit).",
+   note="Fragments that are not well-formed responses at header level may fail the task or be ignored; a READ answered with an early FIN is a valid shorter answer; the timeout instant is not judged.",
+   design="DESIGN.md §5 C15"),
+ "C16": dict(
+   technique="property-based testing: one-deviation echoes for commands; fault injection at every step of every user request kind",
+   text="(1) Command sets over the five control types, 8/16-bit indices, 1-3 headers, direct or select-before-operate; the harness echoes faithfully or with exactly one deviation at step 1 or 2; success iff faithful, OPERATE only after a faithful SELECT echo with seq+1 and identical objects, nothing sent after a deviation. (2) Twelve request kinds (read, commands, three time-sync procedures, restarts, dead-band write, empty-response request, link check, file read with a FileReader) x fault after step k (reply lost, disconnect, channel disabled, association removed, none): the user future resolves exactly once with Ok iff no fault, the FileReader gets exactly one terminal callback, within (steps+1) response timeouts of virtual time.",
+   note="Master shutdown by dropping all handles is not generated. Directory read / file info / open / write / close / auth share the one-step machinery and are not generated separately.",
+   design="DESIGN.md §5 C16"),
+ "C17": dict(
+   technique="stateful property-based testing against the ordering relation of the statement (scripted outstation)",
+   text="Generated association configurations and a scripted outstation (per request: proper reply with generated indication bits, IIN2 rejection, unacceptable reply, silence; injected unsolicited responses and reconnects). A model of what is still due (clear restart < disable < integrity < time sync < enable < polls) is updated from the indications the harness itself sent; every transmitted request is checked against it, retry instants against the exponential back-off, and unsolicited data against the integrity-poll gate.",
+   note="After an IIN2 rejection of DISABLE/ENABLE giving up and retrying are both accepted; requests already on the wire when an indication is injected are judged leniently.",
+   design="DESIGN.md §5 C17"),
+ "C19": dict(
+   technique="stateful property-based testing over exactly time-stamped request traces (virtual clock)",
+   text="1-4 associations with 0-3 polls each and optional keep-alive, user READs and poll demands at generated times, an outstation that answers promptly, late or never. Checked on the trace: one request outstanding at a time, user requests in order and ahead of polls, polls never early and never late while the channel is idle, nothing due is left waiting at quiescence, keep-alive only after the configured silence, bounded task polls while idle (no spinning).",
+   note="A demand issued while that very poll is running is not judged. Turn-taking between associations is asserted through the idle/ordering clauses rather than a separate round-robin clause.",
+   design="DESIGN.md §5 C19"),
 }
 NOT_YET = {
 }
